@@ -50,6 +50,7 @@ func resetScenario(c *caseOut, h *History, cfg config.Blockchain, sr *subjectRun
 		if len(bs) == b0 {
 			// refused before anything was written: the node is unchanged, nothing to resume
 			c.cnt.count("reset:refused-" + slug(err))
+			refusedResetUnchanged(c, h, cfg, sr, cur, fold(bs, b0))
 			return
 		}
 		c.cnt.count("reset:error")
@@ -151,4 +152,33 @@ func slug(err error) string {
 		}
 	}
 	return sb.String()
+}
+
+// refusedResetUnchanged: after a refused Reset the backend is byte-identical to what it was (the fold of the batches
+// recorded before the call) and the stopped node reopens at the same height with the same observable state.
+func refusedResetUnchanged(c *caseOut, h *History, cfg config.Blockchain, sr *subjectRun, cur uint32, before map[string][]byte) {
+	if d := diffDB(before, dumpStore(sr.st), 6); len(d) > 0 {
+		c.fail("reset-refused-changed-db", "a refused Reset changed the database: %s", strings.Join(d, " "))
+		return
+	}
+	nb := sr.st.NumBatches()
+	bc, err := openNode(sr.st, cfg)
+	if err != nil {
+		c.fail("reset-refused-reopen", "after a refused Reset the node does not reopen: %v", err)
+		return
+	}
+	if bc.BlockHeight() != cur {
+		c.fail("reset-refused-height", "after a refused Reset the node reopens at %d, it was at %d", bc.BlockHeight(), cur)
+		return
+	}
+	if int(cur) < len(h.Ref) && !h.Ref[cur].partial {
+		got := observe(bc, h, cur)
+		if d := h.Ref[cur].diff(&got, nil); len(d) > 0 {
+			c.fail("reset-refused-"+d[0], "after a refused Reset the reopened node differs from the reference at %d in %v", cur, d)
+		}
+	}
+	if sr.st.NumBatches() != nb {
+		c.fail("reset-refused-wrote-on-reopen", "reopening after a refused Reset wrote %d batches", sr.st.NumBatches()-nb)
+	}
+	c.cnt.count("reset:refused-node-unchanged")
 }
